@@ -368,14 +368,17 @@ def calibrate() -> dict:
     return out
 
 
-def online_walks(g, n: int, rng, *, max_walks: int, max_len: int = 60) -> list[dict]:
+def online_walks(g, n: int, rng, *, max_walks: int, max_len: int = 60, key=None, deadline: float | None = None):
     """Model-guided walks: at every node pick an action (towards the nearest edge not yet covered), execute it on
     the real code, then move to the successor *that matches what the real code did* (WBind is nondeterministic in
     the model: the filesystem decides whether an inode number is reused).  No matching successor = drift."""
     from collections import deque
 
+    import time as _time
+
+    cls = (lambda u, lab, v: (u, lab, v)) if key is None else (lambda u, lab, v: key(g.state(u), lab, g.state(v)))
     covered: set = set()
-    all_edges = {(u, lab, v) for u, es in g.out.items() for lab, v in es if u != v}
+    all_edges = {cls(u, lab, v) for u, es in g.out.items() for lab, v in es if u != v}
     results = []
 
     def plan(src):
@@ -387,7 +390,7 @@ def online_walks(g, n: int, rng, *, max_walks: int, max_len: int = 60) -> list[d
             es = [(lab, v) for lab, v in g.out.get(u, []) if v != u]
             rng.shuffle(es)
             for lab, v in es:
-                if (u, lab, v) not in covered:
+                if cls(u, lab, v) not in covered:
                     return first or lab
             for lab, v in es:
                 if v not in seen:
@@ -396,7 +399,7 @@ def online_walks(g, n: int, rng, *, max_walks: int, max_len: int = 60) -> list[d
         return None
 
     for _ in range(max_walks):
-        if covered >= all_edges:
+        if covered >= all_edges or (deadline is not None and _time.time() > deadline):
             break
         node = rng.choice(g.init)
         drift = None
@@ -427,7 +430,7 @@ def online_walks(g, n: int, rng, *, max_walks: int, max_len: int = 60) -> list[d
                     drift = {"step": step_no, "action": lab, "observed": {f: ev[f] for f in ("ll", "wl", "lk", "path", "ic", "res")},
                              "expected_one_of": cands[:3]}
                     break
-                covered.add((node, lab, nxt))
+                covered.add(cls(node, lab, nxt))
                 node = nxt
             results.append({"trace": list(w.trace), "mon": list(w.mon), "drift": drift,
                             "errors": {k: repr(v) for k, v in w.sched.errors.items()},
